@@ -95,7 +95,7 @@ theorem full_inv (side : Side) (ip : Vec K → Vec K → K) (sqrt : K → K) (A 
   · cases hb
     refine ⟨?_, rfl, rfl⟩
     have := pstep side A P ok f h.x h.s h.s st.w.t h.T st.w.r
-      (ip (pspmv side P A h.s st.w.t h.T).1 h.s /
+      (ip h.s (pspmv side P A h.s st.w.t h.T).1 /
         ip (pspmv side P A h.s st.w.t h.T).1 (pspmv side P A h.s st.w.t h.T).1) hs hsz
     cases side <;> exact this
 
